@@ -7,7 +7,7 @@
 //! the permissive variants of `model::http`; every message found must be one client stream's request, unchanged in
 //! method / target / host / body.
 //!
-//! Exploration aids: VP_C03H2_SURVEY=1 (tally failure signatures instead of stopping), VP_C03H2_NO_EXCLUSIONS=1.
+//! Exploration aids: VP_C03H2_SURVEY=1 (tally failure signatures instead of stopping), VP_C03H2_EXCLUSIONS=1.
 
 use std::{
     cell::RefCell,
@@ -333,11 +333,13 @@ fn bodied(method: &str) -> bool {
 }
 
 thread_local! {
-    static EXCLUSIONS: std::cell::Cell<bool> = std::cell::Cell::new(std::env::var("VP_C03H2_NO_EXCLUSIONS").is_err());
+    /// the three shapes below are repaired in sozu (84a07a5): they are generated like any other unless
+    /// VP_C03H2_EXCLUSIONS is set (exploring an older tree)
+    static EXCLUSIONS: std::cell::Cell<bool> = std::cell::Cell::new(std::env::var("VP_C03H2_EXCLUSIONS").is_ok());
 }
 
-/// Known findings (strict reproducers regressions/C03/h2smuggle-known-*.json; generated cases leave the shapes out and
-/// count them in `excluded_known`):
+/// Findings repaired in sozu (reproducers kept as regressions/C03/h2smuggle-fixed-*.json; with VP_C03H2_EXCLUSIONS set
+/// generated cases leave the shapes out and count them in `excluded_known`):
 /// * `C03/h2-duplicate-framing-field-forwarded` — two content-length fields with the same value are both written to the
 ///   HTTP/1.1 backend (RFC 9112 6.3: the value MUST be replaced by the single value before forwarding; a strict
 ///   backend answers 400 / never answers);
@@ -1721,7 +1723,7 @@ pub fn describe(ev: &mut engine::Evidence) {
     ev.assume("h2smuggle: HTTP/2 frontend -> HTTP/1.1 backends only (h2c backends are C13 h2paths' subject); frame-level faults are limited to the END_STREAM / trailers sequence (other connection-level faults are C15's subject); flow-control windows are honoured by the client; `any RFC-conforming backend` is one strict and 14 permissive reference readers");
     ev.assume("h2smuggle: only a stream without any mutation is required to be forwarded; a mutated stream may be refused even where RFC 9113 allows it (leading zeros, identical duplicate content-length, GET with DATA, Host without :authority, extension methods, te: trailers in trailers ...): the property is about what reaches a backend, not about availability");
     ev.assume("h2smuggle: sozu forwards a head as soon as it has it: of a stream it later refuses (content-length exceeded / not reached at END_STREAM) a backend may hold the head and a prefix of the DATA on a connection sozu then closes; a request whose DATA exceeds its own content-length may already have been answered by the backend (exactly the declared bytes, the excess reaches no backend) when the excess arrives; a stream dropped while sozu drains the connection after GOAWAY NO_ERROR gets no RST_STREAM and counts as refused");
-    ev.assume("h2smuggle: three known shapes are left out of generated cases and counted in excluded_known (strict reproducers regressions/C03/h2smuggle-known-*.json): a second content-length field with the same number (both lines are forwarded), a space in :path (forwarded into the request line), bytes above 0x7f in :path (forwarded into the request line)");
+    ev.assume("h2smuggle: three shapes found by this sub-check (a second content-length field with the same number forwarded as two lines; a space in :path; bytes above 0x7f in :path) were repaired in sozu and are generated like any other; their reproducers are regressions/C03/h2smuggle-fixed-*.json");
     for (class, frac) in [
         ("forwarded", 0.4),
         ("refused", 0.5),
